@@ -546,7 +546,7 @@ def domain_guard(chk, prog, refs=None):
     return n
 
 
-ALL = {"SIGN-CANON": lambda chk, prog, files: sign_canon(chk, prog, files), "UNDEFINED-NAME": lambda chk, prog, files: possibly_undefined(chk, prog, files), "SELF-PURE": lambda chk, prog, files: self_pure(chk, prog, files), "STALE-DERIVED": lambda chk, prog, files: stale_derived(chk, prog, files), "CACHE-KEY": lambda chk, prog, files: cache_key(chk, prog, files), "NO-PARAM-WRITE": lambda chk, prog, files: no_param_write(chk, prog, files), "ZERO-AS-MISSING": lambda chk, prog, files: zero_as_missing(chk, prog, files), "POSE-DIV": lambda chk, prog, files: pose_div(chk, prog, files), "UNIT-GUARD": lambda chk, prog, files: unit_guard(chk, prog, files), "PARAM-DEAD": param_dead, "SWAPPED-ARGS": swapped_args, "METHOD-TRUTH": method_truth, "VIEW-SWAP": view_swap,
+ALL = {"SIGNATURE": lambda chk, prog, files: signature(chk, prog, files), "SIGN-CANON": lambda chk, prog, files: sign_canon(chk, prog, files), "UNDEFINED-NAME": lambda chk, prog, files: possibly_undefined(chk, prog, files), "SELF-PURE": lambda chk, prog, files: self_pure(chk, prog, files), "STALE-DERIVED": lambda chk, prog, files: stale_derived(chk, prog, files), "CACHE-KEY": lambda chk, prog, files: cache_key(chk, prog, files), "NO-PARAM-WRITE": lambda chk, prog, files: no_param_write(chk, prog, files), "ZERO-AS-MISSING": lambda chk, prog, files: zero_as_missing(chk, prog, files), "POSE-DIV": lambda chk, prog, files: pose_div(chk, prog, files), "UNIT-GUARD": lambda chk, prog, files: unit_guard(chk, prog, files), "PARAM-DEAD": param_dead, "SWAPPED-ARGS": swapped_args, "METHOD-TRUTH": method_truth, "VIEW-SWAP": view_swap,
        "MODULE-STATE": module_state, "SHADOW-REBIND": shadow_rebind, "CASE-MIXED": case_mixed, "INT-ALLOC": int_alloc}
 
 
@@ -620,7 +620,7 @@ def _lint_fixture_alloc(p):
 '''
 FIXTURE_HOST = "ahrs/common/frames.py"
 # rule -> properties that own it (None = every property, on its anchor files)
-OWNERS = {"SIGN-CANON": None, "UNDEFINED-NAME": None, "SELF-PURE": {"C01", "C02", "C07", "C09", "C10", "C11", "C12", "C18", "C20"}, "STALE-DERIVED": None, "CACHE-KEY": None, "NO-PARAM-WRITE": {"C01", "C02", "C03", "C04", "C06", "C07", "C09", "C10", "C12", "C13", "C18", "C20"}, "ZERO-AS-MISSING": None, "POSE-DIV": {"C03", "C04", "C05", "C13", "C02", "C07"}, "UNIT-GUARD": None, "PARAM-DEAD": None, "SWAPPED-ARGS": None, "METHOD-TRUTH": None, "VIEW-SWAP": None, "INT-ALLOC": None, "CASE-MIXED": None,
+OWNERS = {"SIGNATURE": None, "SIGN-CANON": None, "UNDEFINED-NAME": None, "SELF-PURE": {"C01", "C02", "C07", "C09", "C10", "C11", "C12", "C18", "C20"}, "STALE-DERIVED": None, "CACHE-KEY": None, "NO-PARAM-WRITE": {"C01", "C02", "C03", "C04", "C06", "C07", "C09", "C10", "C12", "C13", "C18", "C20"}, "ZERO-AS-MISSING": None, "POSE-DIV": {"C03", "C04", "C05", "C13", "C02", "C07"}, "UNIT-GUARD": None, "PARAM-DEAD": None, "SWAPPED-ARGS": None, "METHOD-TRUTH": None, "VIEW-SWAP": None, "INT-ALLOC": None, "CASE-MIXED": None,
           "SHADOW-REBIND": None,
           # process-wide hidden state only contradicts properties that promise repeatability / isolation / history independence
           "MODULE-STATE": {"C06", "C15", "C19"}}
@@ -681,6 +681,18 @@ def self_test(chk, prog):
         self_pure(sink, p4, ["ahrs/common/quaternion.py"])
     except Exception as e:
         chk.error("lint SELF-PURE crashed on its positive example: %s: %s" % (type(e).__name__, e))
+    # SIGNATURE is table-driven: a positional parameter inserted in front of a tabled public function
+    def tr4(tree):
+        for g in tree.body:
+            if isinstance(g, ast.FunctionDef) and g.name == "ned2enu":
+                g.args.args.insert(0, ast.arg(arg="flag"))
+                return True
+        return False
+    try:
+        p5 = prog.mutated(FIXTURE_HOST, tr4)
+        signature(sink, p5, [FIXTURE_HOST])
+    except Exception as e:
+        chk.error("lint SIGNATURE crashed on its positive example: %s: %s" % (type(e).__name__, e))
     for name in ALL:
         fired = name in sink.rules
         chk.canary("lint %s fires on its embedded positive example" % name, fired, "" if fired else "no finding on the fixture")
@@ -1323,4 +1335,34 @@ def sign_canon(chk, prog, files):
                                 "`%s` is multiplied by the sign of its own component `%s`: when that component is exactly 0 (a valid value: half-turns, axis-aligned poses) "
                                 "np.sign gives 0 and the whole vector is annihilated" % (other, ast.unparse(arg)), line=call.lineno)
     chk.counts["SIGN-CANON.products"] = chk.counts.get("SIGN-CANON.products", 0) + n
+    return n
+
+
+# ------------------------------------------------------------------------------------------------------------- SIGNATURE
+def signature(chk, prog, files):
+    """the positional parameters of every public callable (names, order, defaults) keep the list frozen from the pinned tree as a prefix
+    (sa/signatures.json, written by tools/gen_signatures.py): inserting, removing, reordering or re-defaulting a positional parameter changes what every
+    existing positional call means, silently when the new parameter accepts the old argument (a string unit where a boolean flag now sits)"""
+    import json
+    import os
+    path = os.path.join(os.path.dirname(os.path.abspath(__file__)), "signatures.json")
+    table = json.load(open(path))
+    n = 0
+    for f in _funcs(prog, files):
+        want = table.get(f.ref)
+        if want is None:
+            continue
+        n += 1
+        a = f.node.args
+        params = a.posonlyargs + a.args
+        defaults = [None] * (len(params) - len(a.defaults)) + list(a.defaults)
+        got = [[p.arg, (ast.unparse(d) if d is not None else None)] for p, d in zip(params, defaults)]
+        for i, w in enumerate(want):
+            g = got[i] if i < len(got) else None
+            if g != w:
+                what = "parameter %d is now %s (was `%s%s`)" % (i + 1, ("`%s%s`" % (g[0], "=" + g[1] if g[1] is not None else "")) if g else "missing", w[0], "=" + w[1] if w[1] is not None else "")
+                chk.finding("SIGNATURE", f.module.rel, f.qname, "positional parameter %d (%s)" % (i + 1, w[0]),
+                            "%s: existing positional calls now bind their argument to a different parameter or get a different default" % what, line=f.node.lineno)
+                break
+    chk.counts["SIGNATURE.callables"] = chk.counts.get("SIGNATURE.callables", 0) + n
     return n
